@@ -1,0 +1,88 @@
+//! Verification hooks for the rayon producers (cargo features `verif-hooks`
+//! + `rayon`): lets an external harness drive the private producers' real
+//! `split` / `fold_with` / `Drop` along a split tree of its choosing.
+//! Add-only; nothing here is used by the crate itself.
+#![allow(missing_docs, clippy::pedantic, clippy::all)]
+
+use super::{ParDrainProducer, ParIterProducer};
+use crate::alloc::vec::Vec;
+use crate::raw::{Allocator, Bucket};
+use crate::HashTable;
+use rayon::iter::plumbing::{Folder, UnindexedProducer};
+
+/// Wrapper around the private producer behind `par_iter` and friends.
+pub struct VerifIterProducer<T>(ParIterProducer<T>);
+
+struct IndexFolder<'a, T, A: Allocator> {
+    table: &'a HashTable<T, A>,
+    out: Vec<usize>,
+}
+impl<T, A: Allocator> Folder<Bucket<T>> for IndexFolder<'_, T, A> {
+    type Result = Vec<usize>;
+    fn consume(mut self, item: Bucket<T>) -> Self {
+        // SAFETY: the bucket comes from an iterator over `table`.
+        self.out.push(unsafe { self.table.raw.bucket_index(&item) });
+        self
+    }
+    fn complete(self) -> Vec<usize> {
+        self.out
+    }
+    fn full(&self) -> bool {
+        false
+    }
+}
+
+impl<T> VerifIterProducer<T> {
+    /// The real `UnindexedProducer::split`.
+    pub fn split(self) -> (Self, Option<Self>) {
+        let (l, r) = self.0.split();
+        (VerifIterProducer(l), r.map(VerifIterProducer))
+    }
+    /// Runs the real `fold_with` and returns the bucket indices it yielded.
+    pub fn leaf_indices<A: Allocator>(self, table: &HashTable<T, A>) -> Vec<usize> {
+        self.0
+            .fold_with(IndexFolder {
+                table,
+                out: Vec::new(),
+            })
+            .complete()
+    }
+}
+
+/// Wrapper around the private producer behind `par_drain` / `into_par_iter`.
+/// Dropping it runs the real `Drop` (drops the unconsumed remainder).
+pub struct VerifDrainProducer<T>(ParDrainProducer<T>);
+
+impl<T: Send> VerifDrainProducer<T> {
+    /// The real `UnindexedProducer::split`.
+    pub fn split(self) -> (Self, Option<Self>) {
+        let (l, r) = self.0.split();
+        (VerifDrainProducer(l), r.map(VerifDrainProducer))
+    }
+    /// The real `fold_with`.
+    pub fn fold_with<F: Folder<T>>(self, folder: F) -> F {
+        self.0.fold_with(folder)
+    }
+}
+
+impl<T, A: Allocator> HashTable<T, A> {
+    /// Producer over all elements, as `par_iter` builds it.
+    pub fn verif_par_iter_producer(&self) -> VerifIterProducer<T> {
+        // SAFETY: the producer must not outlive the table (caller's duty).
+        VerifIterProducer(ParIterProducer {
+            iter: unsafe { self.raw.iter().iter },
+        })
+    }
+    /// First half of `RawParDrain::drive_unindexed`: the producer over all
+    /// elements. The caller must consume or drop every producer split from
+    /// it and then call `verif_par_drain_end` before using the table again.
+    pub unsafe fn verif_par_drain_begin(&mut self) -> VerifDrainProducer<T> {
+        VerifDrainProducer(ParDrainProducer {
+            iter: self.raw.iter().iter,
+        })
+    }
+    /// Second half of `RawParDrain::drive_unindexed` (its scope guard).
+    pub fn verif_par_drain_end(&mut self) {
+        self.raw.clear_no_drop();
+    }
+}
